@@ -22,9 +22,15 @@ type Case struct {
 	NBefore int   `json:"n_before"`
 	NAfter  int   `json:"n_after"`
 	Procs   int   `json:"procs"`
-	Stagger []int `json:"stagger"` // per early caller: Gosched calls before calling Do
-	Hold    int   `json:"hold"`    // Gosched rounds the harness keeps the gate closed after everybody called Do
+	Stagger []int `json:"stagger"`          // per early caller: Gosched calls before calling Do
+	Hold    int   `json:"hold"`             // Gosched rounds the harness keeps the gate closed after everybody called Do
 	Panics  bool  `json:"panics,omitempty"` // every passed function panics (after the gate opened); callers recover
+	Goexit  bool  `json:"goexit,omitempty"` // every passed function ends its goroutine with runtime.Goexit (after the gate opened)
+	// Other: while the action is held open, a DIFFERENT Once value of the same type runs to completion
+	// (1 = from another goroutine, 2 = from inside the held action itself); the waiters must not be affected
+	Other int `json:"other,omitempty"`
+	// NilIface: the variant is Once1[error] and the action returns a nil error (0 = no, 1 = nil, 2 = non-nil error)
+	NilIface int `json:"nil_iface,omitempty"`
 }
 
 type vals struct {
@@ -37,14 +43,36 @@ func valsOf(i int) vals { return vals{A: i*1000 + 1, B: fmt.Sprintf("caller-%d",
 
 // once abstracts the three variants: do(i, f) calls Do with a function that runs f and returns valsOf(i) in the variant's arity.
 type once struct {
+	oe sync2.Once1[error]
+	ne int // 1: actions return a nil error, 2: a non-nil error carrying the caller id
 	o1 sync2.Once1[int]
 	o2 sync2.Once2[int, string]
 	o3 sync2.Once3[int, string, [2]int]
 	v  int
 }
 
+type idErr int
+
+func (e idErr) Error() string { return fmt.Sprintf("error of caller %d", int(e)) }
+
 func (o *once) do(i int, body func()) vals {
 	w := valsOf(i)
+	if o.ne != 0 {
+		err := o.oe.Do(func() error {
+			body()
+			if o.ne == 1 {
+				return nil
+			}
+			return idErr(i)
+		})
+		if err == nil {
+			return vals{A: -1}
+		}
+		if e, ok := err.(idErr); ok {
+			return valsOf(int(e))
+		}
+		return vals{A: -2}
+	}
 	switch o.v {
 	case 1:
 		a := o.o1.Do(func() int { body(); return w.A })
@@ -63,7 +91,8 @@ func Run(c Case) pbt.Outcome {
 		defer runtime.GOMAXPROCS(runtime.GOMAXPROCS(c.Procs))
 	}
 	n := c.NBefore + c.NAfter
-	o := &once{v: c.Variant}
+	o := &once{v: c.Variant, ne: c.NilIface}
+	other := &once{v: c.Variant, ne: c.NilIface}
 	invoked := make([]atomic.Int32, n)
 	entered := make(chan int, n+1)
 	gate := make(chan struct{})
@@ -85,12 +114,20 @@ func Run(c Case) pbt.Outcome {
 		got[i] = o.do(i, func() {
 			invoked[i].Add(1)
 			entered <- i
+			if hold && c.Other == 2 {
+				// a different Once used from inside the held action
+				other.do(900, func() {})
+			}
 			if hold {
 				<-gate
 			}
 			completed = true
 			if c.Panics {
 				panic("action panics")
+			}
+			if c.Goexit {
+				returned.Add(1)
+				runtime.Goexit()
 			}
 		})
 		sawCompleted[i] = completed
@@ -118,6 +155,11 @@ func Run(c Case) pbt.Outcome {
 	// let every early caller reach Do while the action is held open
 	for spins := 0; int(calling.Load()) < c.NBefore && spins < 1_000_000; spins++ {
 		runtime.Gosched()
+	}
+	if c.Other == 1 {
+		// an unrelated Once value of the same type starts and finishes while ours is still running
+		other.do(900, func() {})
+		other.do(901, func() {})
 	}
 	for k := 0; k < c.Hold; k++ {
 		runtime.Gosched()
@@ -153,16 +195,23 @@ func Run(c Case) pbt.Outcome {
 	if total != 1 {
 		return pbt.Fail("%d function invocations in total (per caller: %v), want exactly 1", total, counts(invoked))
 	}
-	if c.Panics {
-		// a panicking action still counts as the one invocation; nothing is asserted about the returned values
+	if c.Panics || c.Goexit {
+		// a panicking action / one that ends its goroutine still counts as the one invocation; nothing is asserted about the returned values
 		for i := 0; i < n; i++ {
 			if panicked[i] && invoked[i].Load() == 0 {
 				return pbt.Fail("caller %d's Do panicked although its function was never invoked", i)
 			}
 		}
-		return pbt.Outcome{Evals: n, NonTrivial: c.NBefore >= 2, Labels: []string{"panicking-action", fmt.Sprintf("variant=Once%d", c.Variant)}}
+		lab := "panicking-action"
+		if c.Goexit {
+			lab = "goexit-action"
+		}
+		return pbt.Outcome{Evals: n, NonTrivial: c.NBefore >= 2, Labels: []string{lab, fmt.Sprintf("variant=Once%d", c.Variant)}}
 	}
 	want := valsOf(first)
+	if c.NilIface == 1 {
+		want = vals{A: -1}
+	}
 	for i := 0; i < n; i++ {
 		if got[i] != want {
 			return pbt.Fail("caller %d's Do returned %+v, but the invoked function (caller %d's) returned %+v", i, got[i], first, want)
@@ -196,18 +245,26 @@ func counts(a []atomic.Int32) []int32 {
 var spec = pbt.Register(&pbt.Spec[Case]{
 	Property: "C17", Name: "C17.once",
 	Rule: "E4 under -race: variant in {Once1,Once2,Once3} x 1..8 early callers (each with its own function returning values unique to it, counting its invocations, signalling 'entered', " +
-		"then blocking on a harness gate, finally writing a PLAIN completion flag) x 0..4 later callers x GOMAXPROCS x arrival stagger; in one case of six every passed function panics after the gate opens (callers recover; then only 'exactly one invocation in total' is asserted). Oracle: exactly one 'entered' ever; while the gate is closed no Do has returned " +
+		"then blocking on a harness gate, finally writing a PLAIN completion flag) x 0..4 later callers x GOMAXPROCS x arrival stagger; in one case of six every passed function panics after the gate opens (callers recover; then only 'exactly one invocation in total' is asserted), in another sixth they end their goroutine with runtime.Goexit; in half of the cases a DIFFERENT Once value of the same type runs to completion while ours is held open (from another goroutine or from inside the held action); Once1 is also instantiated with an interface result type (error) returning nil or non-nil. Oracle: exactly one 'entered' ever; while the gate is closed no Do has returned " +
 		"(sound: the action has not completed); afterwards every Do returned exactly the invoked function's values; total invocations == 1; every caller reads the plain flag after Do (must be true; the race detector " +
 		"reports any read not ordered after the write). non-trivial = >=2 early callers",
 	Gen: func(t *rapid.T) Case {
 		nb := rapid.SampledFrom([]int{1, 2, 2, 3, 4, 6, 8}).Draw(t, "n_before")
-		return Case{
+		c := Case{
 			Variant: rapid.IntRange(1, 3).Draw(t, "variant"), NBefore: nb, NAfter: rapid.IntRange(0, 4).Draw(t, "n_after"),
 			Procs:   rapid.SampledFrom([]int{1, 2, 4, 8, 16}).Draw(t, "procs"),
 			Stagger: rapid.SliceOfN(rapid.IntRange(0, 4), nb, nb).Draw(t, "stagger"),
 			Hold:    rapid.SampledFrom([]int{0, 1, 3, 10}).Draw(t, "hold"),
 			Panics:  rapid.IntRange(0, 5).Draw(t, "panics") == 0,
+			Other:   rapid.SampledFrom([]int{0, 0, 1, 2}).Draw(t, "other"),
 		}
+		if !c.Panics && rapid.IntRange(0, 5).Draw(t, "goexit") == 0 {
+			c.Goexit = true
+		}
+		if c.Variant == 1 && rapid.IntRange(0, 2).Draw(t, "iface") == 0 {
+			c.NilIface = rapid.IntRange(1, 2).Draw(t, "nilerr")
+		}
+		return c
 	},
 	Run: Run, Quick: 1500, Thorough: 20000, Crashy: true, Retries: 100,
 	Assumes: []string{"sync.Once's internals are not instrumented: the gate makes the inter-call schedule deterministic, windows inside a single call are reached by free-running repetition only"},
